@@ -1,4 +1,5 @@
 import TxV.Proofs.Simultaneous
+import TxV.Proofs.SimultaneousShape
 /-!
 # C13 — simultaneous methods run together and exchange data
 
@@ -24,12 +25,12 @@ namespace TxV.Core
 
 variable {D : Design} {v : Val} {S : Sched} {run : Nat → Bool} {L : List Nat}
 
--- OBLIGATION c13_same_cycles : sentence 1: for every post-merge design with ShapeC13 for the pair (a, b) (driver-checked per design; proved for the Connect family), every valuation and run assignment with the core cycle facts and LinkEn: a runs iff b runs
+-- OBLIGATION c13_same_cycles : sentence 1 (PARTIAL for uses other than w writers x r readers of one Connect - plain simultaneous() between transactions/methods, chained Connects: the added hypothesis ShapeC13 is checked there per generated design by the driver; proved for the Connect family, see simultaneous_shape_connect and c13_connect_family): for every post-merge design with ShapeC13 for the pair (a, b) (driver-checked per design; proved for the Connect family), every valuation and run assignment with the core cycle facts and LinkEn: a runs iff b runs
 theorem c13_same_cycles (hA : Accepted D S) (hC : Cycle D v S run) (hl : LinkEn D v run L) {a b : Nat}
     (hS : ShapeC13 D a b L) : run a = true ↔ run b = true :=
   same_cycles hA hC hl hS
 
--- OBLIGATION c13_data : sentence 2 for Connect (exclusive write w and read r): in every cycle in which write runs, write and read each have exactly one active call site, read returns the argument passed to write at that site and write returns the argument passed to read (both directions, same cycle; any number of writers and readers)
+-- OBLIGATION c13_data : sentence 2 for Connect (same added hypothesis ShapeC13) (exclusive write w and read r): in every cycle in which write runs, write and read each have exactly one active call site, read returns the argument passed to write at that site and write returns the argument passed to read (both directions, same cycle; any number of writers and readers)
 theorem c13_data (hA : Accepted D S) (hC : Cycle D v S run) (hn : D.SitesNodup) (hl : LinkEn D v run L)
     {w r : Nat} (hS : ShapeC13 D w r L) (hxw : D.nonexcl w = false) (hxr : D.nonexcl r = false)
     (hr : run w = true) :
@@ -55,8 +56,61 @@ theorem c13_shape_checker_sound (hb : Bounded D) {a b : Nat} :
     (shapeC13B D a b L = true → ShapeC13 D a b L) ∧ (linkEnB D v run L = true → LinkEn D v run L) :=
   ⟨shapeC13B_sound hb, linkEnB_sound⟩
 
+-- OBLIGATION simultaneous_shape_connect : the shape hypothesis is PROVED for the Connect family, for every w >= 1 writers and r >= 1 readers: whenever the executable model of _simultaneous succeeds on the pre-merge design of "w transactions calling Connect.write, r transactions calling Connect.read" (TxV.Simul.connPre), its result satisfies ShapeC13 for (write, read) (the groups are exactly the pairs {writer_a, reader_c}; every merged transaction reaches both methods through unconditional calls)
+theorem simultaneous_shape_connect (w r : Nat) (hw : 0 < w) (hr : 0 < r) {R : Simul.MergeOut}
+    (h : Simul.simultaneous (Simul.connPre w r) (w + r) = .ok R) :
+    ShapeC13 (Bridge.toAbs R.D) (w + r) (w + r + 1) (Simul.linkSites R.D R.enDeps (w + r)) :=
+  Simul.simultaneous_shape_connect w r hw hr h
+
+-- OBLIGATION c13_connect_family : both sentences WITHOUT a shape hypothesis for w >= 1 writers x r >= 1 readers of one Connect: from the executable models alone (model of _simultaneous succeeds, manager model accepts the merged design, validOrder) and the per-valuation checks cycleOk / linkEnB: write runs iff read runs, and when they run each has exactly one active caller, read returns that writer's argument and write returns that reader's argument
+theorem c13_connect_family (w r : Nat) (hw : 0 < w) (hr : 0 < r) {R : Simul.MergeOut} {E : CoreModel.Elab}
+    {order : List Nat} {vm : CoreModel.Val} {rn : Nat → Bool}
+    (h : Simul.simultaneous (Simul.connPre w r) (w + r) = .ok R) (hel : CoreModel.elaborate R.D = .ok E)
+    (hvo : CoreModel.validOrder E.g.before R.D.transactions order = true)
+    (hcy : Bridge.cycleOk R.D E order vm rn = true)
+    (hl : linkEnB (Bridge.toAbs R.D) (Bridge.toVal R.D vm) (Bridge.runAll E vm rn)
+      (Simul.linkSites R.D R.enDeps (w + r)) = true)
+    (hxw : (Bridge.toAbs R.D).nonexcl (w + r) = false) (hxr : (Bridge.toAbs R.D).nonexcl (w + r + 1) = false) :
+    (Bridge.runAll E vm rn (w + r) = true ↔ Bridge.runAll E vm rn (w + r + 1) = true) ∧
+    (Bridge.runAll E vm rn (w + r) = true →
+      ∃ sw sr, activeSites (Bridge.toAbs R.D) (Bridge.toVal R.D vm) (Bridge.runAll E vm rn) (w + r) = [sw] ∧
+        activeSites (Bridge.toAbs R.D) (Bridge.toVal R.D vm) (Bridge.runAll E vm rn) (w + r + 1) = [sr] ∧
+        connectReadOut (Bridge.toAbs R.D) (Bridge.toVal R.D vm) (Bridge.runAll E vm rn) (w + r) = vm.arg sw.2.site ∧
+        connectWriteOut (Bridge.toAbs R.D) (Bridge.toVal R.D vm) (Bridge.runAll E vm rn) (w + r + 1) = vm.arg sr.2.site) := by
+  obtain ⟨hA, _, hN, hC, _⟩ := model_hyps hel hvo hcy
+  have hS := Simul.simultaneous_shape_connect w r hw hr h
+  have hL := linkEnB_sound hl
+  exact ⟨same_cycles hA hC hL hS, fun hrun => connect_data hA hC hN hL hS hxw hxr hrun⟩
+
+/-- non-vacuity: two writers and one reader of one `Connect`.  The model of `_simultaneous` succeeds, the
+manager model accepts the merged design (merged transactions 5 = {W0,R}, 6 = {W1,R}), and in the cycle where
+everything is ready the hypotheses hold, `write` (3) and `read` (4) both run, `read` returns the argument 5
+of the running writer W0 and `write` returns the reader's argument 9 -/
+def nvC13 : Bool :=
+  match Simul.simultaneous (Simul.connPre 2 1) 3 with
+  | .ok R =>
+    match CoreModel.elaborate R.D with
+    | .ok E =>
+      let v : CoreModel.Val := ⟨fun _ => true, fun _ => true, fun s => if s == 0 then 5 else if s == 1 then 6 else 9, fun _ => 0⟩
+      let run := CoreModel.evalEager R.D E v [5, 6]
+      let rb := Bridge.runAll E v run
+      let L := Simul.linkSites R.D R.enDeps 3
+      CoreModel.validOrder E.g.before R.D.transactions [5, 6] &&
+      Bridge.cycleOk R.D E [5, 6] v run &&
+      shapeC13B (Bridge.toAbs R.D) 3 4 L &&
+      linkEnB (Bridge.toAbs R.D) (Bridge.toVal R.D v) rb L &&
+      rb 3 && rb 4 && rb 0 && !rb 1 &&
+      connectReadOut (Bridge.toAbs R.D) (Bridge.toVal R.D v) rb 3 == 5 &&
+      connectWriteOut (Bridge.toAbs R.D) (Bridge.toVal R.D v) rb 4 == 9
+    | .error _ => false
+  | .error _ => false
+
+example : nvC13 = true := by decide +kernel
+
 end TxV.Core
 
+#print axioms TxV.Core.simultaneous_shape_connect
+#print axioms TxV.Core.c13_connect_family
 #print axioms TxV.Core.c13_same_cycles
 #print axioms TxV.Core.c13_data
 #print axioms TxV.Core.c13_callers_together
